@@ -53,7 +53,7 @@ var piecesCore = []string{
 	"`", "``", "```", "`a`", "`` a ``", "```\n", "~~~\n", "~~~", "``` go\n",
 	"#", "# ", "## ", "###### ", "####### ", "# a #", "# a #\n", " #\n", "#\n",
 	">", "> ", ">>", "> > ", " > ",
-	"-", "- ", "* ", "+ ", "1. ", "1) ", "2. ", "10. ", "123456789. ", "1234567890. ", "0. ", "-   ", "-     a",
+	"-", "- ", "* ", "+ ", "1. ", "1) ", "2. ", "10. ", "123456789. ", "1234567890. ", "0. ", "08. ", "09) ", "010. ", "0009. ", "000000008. ", "-   ", "-     a",
 	"---", "***", "___", "- - -", "===", "==", "=", "--", "\n---\n", "\n===\n",
 	"[", "]", "[a]", "[a]: /u", "[a]: /u\n", "[a]: /u 't'\n", "[a]: </u u> \"t\"\n", "[A]: /v\n", "[a]", "[a][]", "[a][a]", "[b][a]", "[a](/u)", "[a](/u 't')", "[a](</u>)", "![a](/u)", "![a]", "![a][]", "[a](", "](", "[a]:", "[a\nb]", "(", ")", "[ a ]", "[a]: /u\n    t\n", "[a]:\n/u\n'ti\ntle'\n",
 	"<", ">", "<a>", "</a>", "<a href=\"x\">", "<a/>", "<b", "<!-- c -->", "<!--", "-->", "<?p?>", "<!D>", "<![CDATA[x]]>", "<div>", "<div>\n", "</div>\n", "<pre>", "</pre>", "<script>", "</script>", "<http://x.y>", "<a@b.c>", "<x:y>",
@@ -89,7 +89,7 @@ var linePrefixes = []string{"", "", "", "> ", ">", "- ", "  ", "    ", "1. ", " 
 var lineBodies = []string{
 	"foo", "bar baz", "", "", " ", "# h", "## h ##", "---", "***", "===", "-", "```", "```go", "~~~", "````", "    code", "<div>", "</div>", "<!-- x -->", "<pre>", "</pre>", "<a", "href='x'>", "<?php", "?>",
 	"[a]: /u", "[a]: /u 't'", "[a]:", "/u", "'t'", "\"t", "t\"", "[a]", "[a][]", "[b][a]", "[a](/u", "'t')", "[a\\]", "*a", "a*", "**a", "a**", "_a_", "`a", "a`", "`` a", "a  ", "a\\", "a &amp; b", "<http://a.b>", "![a](/u)", "[a](</u>", "[x", "y]", "y]: /z", "<b>", "# <b>", "a <b>", "<b> a",
-	"- a", "1. a", "2) b", "> q", "* * *", "- - -", "+ x", "10. y", "[foo", "bar]", "[a]: /u\\", "<!--", "-->", "a-->", "<![CDATA[", "]]>", "<!X", ">", "hello > world",
+	"- a", "1. a", "2) b", "08. a", "09) b", "010. c", "> q", "* * *", "- - -", "+ x", "10. y", "[foo", "bar]", "[a]: /u\\", "<!--", "-->", "a-->", "<![CDATA[", "]]>", "<!X", ">", "hello > world",
 }
 
 func genLines(r *Rng, wild bool, maxLines int) []byte {
@@ -438,7 +438,7 @@ func genInlineRich(r *Rng, wild bool) []byte {
 		if r.Intn(6) == 0 {
 			l = strings.ToUpper(l)
 		}
-		d := "[" + l + "]: " + r.Pick([]string{"/u", "/first", "/second", "</u v>", "/a\\_b"}) + r.Pick([]string{"", "", " 't'", " \"ti\ntle\"", "\n  'x'", "\n\"title\ncontinues\" junk", "\n'a\nb' c", " 'x\n'", "\n(t\nu)"}) + "\n"
+		d := "[" + l + "]: " + r.Pick([]string{"/u", "/first", "/second", "</u v>", "/a\\_b"}) + r.Pick([]string{"", "", " 't'", " \"ti\ntle\"", "\n  'x'", "\n\"title\ncontinues\" junk", "\n'a\nb' c", " 'x\n'", "\n(t\nu)", "\n'title' and more\n===", "\n\"t\" x\n---", "\n==="}) + "\n"
 		switch r.Intn(6) {
 		case 0:
 			d = string(prefixLines([]byte(d), "> ", "> "))
@@ -492,6 +492,10 @@ func genInlineRich(r *Rng, wild bool) []byte {
 		body = string(prefixLines([]byte(body), "- > ", "  > "))
 	}
 	sb.WriteString(body)
+	if r.Intn(8) == 0 {
+		sb.WriteString(r.Pick([]string{"  ", "   ", "\\", " \t"}))
+		return finishEOL(r, wild, sb.String())
+	}
 	if r.Intn(3) > 0 {
 		sb.WriteString("\n")
 		for n := r.Intn(3); n > 0; n-- {
@@ -499,7 +503,10 @@ func genInlineRich(r *Rng, wild bool) []byte {
 			sb.WriteString(def())
 		}
 	}
-	out := sb.String()
+	return finishEOL(r, wild, sb.String())
+}
+
+func finishEOL(r *Rng, wild bool, out string) []byte {
 	if wild {
 		switch r.Intn(5) {
 		case 0:
